@@ -14,6 +14,8 @@ pub mod c13;
 pub mod c14;
 pub mod c15;
 pub mod c16;
+pub mod c17;
+pub mod c18;
 pub mod c19;
 pub mod c20;
 
@@ -56,6 +58,8 @@ pub fn registry(id: &str) -> Option<Entry> {
         "C14" => Entry { run: c14::run, replay: c14::replay, rule: "state = argument (pair); transition = exp / exp2 / exp_m1 / powf on the real crate; judged against interval enclosures of e^x, 2^x, e^x-1, exp(y ln x) with the stated relative tolerances (three-valued decision with precision escalation), plus the exact-point, threshold, sign and no-panic clauses literally", assumptions: FN_ASSUME },
         "C15" => Entry { run: c15::run, replay: c15::replay, rule: "state = argument (pair); transition = ln / log2 / log10 / ln_1p / log; judged against interval enclosures of the logarithms (exact differences near 1) with the stated mixed tolerances, the bit-identity clauses against the other spelling, exact points and domain errors literally", assumptions: FN_ASSUME },
         "C16" => Entry { run: c16::run, replay: c16::replay, rule: "state = argument; transition = sin, cos, sin_cos, tan on the real crate; judged against interval enclosures computed with a 600+ bit reduction by pi/2", assumptions: FN_ASSUME },
+        "C17" => Entry { run: c17::run, replay: c17::replay, rule: "state = argument (pair); transition = asin / acos / atan / atan2; judged against interval enclosures (atan by a verified Newton step on tan, asin/acos through atan2(x, sqrt((1-x)(1+x))) with exact 1 -+ x), axis cases bit-identical to the constants", assumptions: FN_ASSUME },
+        "C18" => Entry { run: c18::run, replay: c18::replay, rule: "state = argument; transition = sinh / cosh / tanh / asinh / acosh / atanh; judged against cancellation-free interval enclosures with the stated mixed tolerances; exact points, domain errors and no-panic literally", assumptions: FN_ASSUME },
         "C19" => Entry { run: c19::run, replay: c19::replay, rule: "state = ordered operand pair; transition = one of the five spellings of %, div_euclid, rem_euclid; judged against the exact truncated / floored integer quotient (binary long division in the long accumulator) with the stated tolerance and near-integer proviso", assumptions: BASE_ASSUME },
         "C20" => Entry { run: c20::run, replay: c20::replay, rule: "text: state = one valid value, transitions = 54 format calls (3 traits x {plain,+} x 9 precisions) compared with std's f64 renderings and parsed back; serde: state = one environment script (sequence or map the data format offers the visitor, built with serde::de::value deserializers) or one valid value serialised through a recording Serializer; oracle = 20-line acceptance predicate using the exact validity test", assumptions: &["rustc/LLVM, IEEE-754 hardware", "std's f64 formatting and parsing are correct (used as the text oracle)", "serde::de::value::{SeqDeserializer, MapDeserializer} behave as a faithful data format", "tfref::big exact validity predicate"] },
         _ => return None,
